@@ -19,6 +19,17 @@ must give the first answer again; in both modes the arrays handed back are check
 arrays handed back by earlier calls and with every array reachable from a functools cache of qecsim or from the
 attributes of the code / decoder / error-model objects (and their classes).
 Results are canonical strings; exceptions become 'EXC:<type>'; a call exceeding the time limit becomes 'TIMEOUT'.
+
+USER SUBCLASSES are a class of objects too: a class name may carry a variant, 'PlanarCode~plain' (trivial subclass, nothing
+overridden), 'PlanarCode~swap' (logical_xs / logical_zs overridden with the X/Z-swapped, equally valid choice),
+'PlanarCode~stab' (each logical multiplied by a stabilizer); decoders and error models: '~plain'.  A subclass object of the
+same size is a DIFFERENT code / decoder / error model: nothing it computes may be served to (or taken from) the base class.
+
+PROCESS-GLOBAL STATE: every call is bracketed by `global_state()` (mpmath precision, numpy errstate / print options /
+legacy global RNG, logging levels, os.environ, cwd, decimal context, warnings filters, recursion limit, gc, locale, …); a
+change is reported as a 'GLOBAL:' note (a lead: the caller confirms it by the differential).  So that 'fresh' really
+means a fresh process state, the script FORKS from a parent that imported qecsim but never called it: one child per call
+in mode 'fresh', one child per history in mode 'shared' (job key 'fork': false switches this off).
 """
 import hashlib
 import json
@@ -52,10 +63,61 @@ EMS = {
 }
 
 
-def _mk(table, name, args=(), kwargs=None):
+_SUBCLASSES = {}
+
+
+def base_name(name):
+    return name.split('~')[0]
+
+
+def subclass(base, variant):
+    """the user subclass `variant` of a qecsim class (one class object per process and (base, variant))"""
+    k = (base, variant)
+    if k in _SUBCLASSES:
+        return _SUBCLASSES[k]
+    if variant == 'plain':
+        class Sub(base):
+            pass
+    elif variant == 'swap':
+        class Sub(base):
+            """the same code with the X / Z labels of its logical qubits exchanged (canonical pairing is symmetric)"""
+
+            @property
+            def logical_xs(self):
+                return np.array(super().logical_zs)
+
+            @property
+            def logical_zs(self):
+                return np.array(super().logical_xs)
+    elif variant == 'stab':
+        class Sub(base):
+            """the same code, every logical operator multiplied by a stabilizer (an equivalent representative)"""
+
+            @property
+            def logical_xs(self):
+                L, S = np.atleast_2d(np.array(super().logical_xs)), np.atleast_2d(self.stabilizers)
+                return np.array([(r + S[(3 * i + 1) % len(S)]) % 2 for i, r in enumerate(L)])
+
+            @property
+            def logical_zs(self):
+                L, S = np.atleast_2d(np.array(super().logical_zs)), np.atleast_2d(self.stabilizers)
+                return np.array([(r + S[(5 * i + 2) % len(S)]) % 2 for i, r in enumerate(L)])
+    else:
+        raise ValueError('unknown subclass variant ' + variant)
+    Sub.__name__ = Sub.__qualname__ = '{}_{}'.format(base.__name__, variant)
+    _SUBCLASSES[k] = Sub
+    return Sub
+
+
+def _cls(table, name):
     import importlib
-    cls = getattr(importlib.import_module(table[name]), name)
-    return cls(*args, **(kwargs or {}))
+    b = base_name(name)
+    cls = getattr(importlib.import_module(table[b]), b)
+    return subclass(cls, name.split('~')[1]) if '~' in name else cls
+
+
+def _mk(table, name, args=(), kwargs=None):
+    return _cls(table, name)(*args, **(kwargs or {}))
 
 
 def key(x):
@@ -81,7 +143,7 @@ class Pool:
         return o
 
     def codes(self):
-        return [o for k, o in sorted(self.objs.items()) if json.loads(k)[0] in CODES]
+        return [o for k, o in sorted(self.objs.items()) if base_name(json.loads(k)[0]) in CODES]
 
 
 _CACHED = None
@@ -279,10 +341,60 @@ def shares(a, b):
         return True
 
 
+def _h(x):
+    return hashlib.blake2b(repr(x).encode(), digest_size=6).hexdigest()
+
+
+def global_state():
+    """name -> short canonical value of the process-global state a qecsim call could leak into (everything a later,
+    unrelated call can observe although it is no argument of it).  The `random` module state is not listed: it is pinned
+    before every call (PlanarYDecoder's documented random tie-break consumes it by design)."""
+    import decimal
+    import gc
+    import locale
+    import logging
+    import os
+    import warnings
+    import mpmath
+    st = {}
+    for nm in ('mp', 'iv'):
+        c = getattr(mpmath, nm)
+        st['mpmath.{}.prec'.format(nm)] = str(c.prec)
+    st['mpmath.mp.dps'] = str(mpmath.mp.dps)
+    st['mpmath.mp.flags'] = '{}/{}'.format(mpmath.mp.trap_complex, mpmath.mp.pretty)
+    st['numpy.errstate'] = repr(sorted(np.geterr().items()))
+    st['numpy.errcall'] = repr(np.geterrcall())
+    st['numpy.printoptions'] = _h(sorted((k, repr(v)) for k, v in np.get_printoptions().items()))
+    g = np.random.get_state()
+    st['numpy.random(global legacy RNG)'] = _h((g[0], g[1].tobytes(), g[2:]))
+    st['logging.disable'] = str(logging.root.manager.disable)
+    st['logging.root'] = '{}/{}'.format(logging.root.level, len(logging.root.handlers))
+    st['logging.qecsim*'] = _h(sorted((n, l.level, len(l.handlers), l.propagate, l.disabled)
+                                      for n, l in logging.root.manager.loggerDict.items()
+                                      if n.startswith('qecsim') and isinstance(l, logging.Logger)))
+    st['os.environ'] = _h(sorted(os.environ.items()))
+    st['os.getcwd'] = os.getcwd()
+    dc = decimal.getcontext()
+    st['decimal.context'] = repr((dc.prec, dc.rounding, dc.Emin, dc.Emax, dc.capitals, dc.clamp,
+                                  sorted(str(k) for k, v in dc.traps.items() if v)))
+    st['warnings.filters'] = _h([(f[0], str(f[1]), str(f[2]), str(f[3]), f[4]) for f in warnings.filters])
+    st['sys.recursionlimit'] = str(sys.getrecursionlimit())
+    st['sys.switchinterval'] = repr(sys.getswitchinterval())
+    st['sys.path'] = _h(sys.path)
+    st['sys.hooks'] = _h((id(sys.excepthook), id(sys.displayhook), id(sys.stdout), id(sys.stderr), sys.gettrace(),
+                          sys.getprofile()))
+    st['gc'] = '{}/{}'.format(gc.isenabled(), gc.get_threshold())
+    st['locale'] = repr(locale.setlocale(locale.LC_ALL))
+    st['signal.SIGINT'] = repr(signal.getsignal(signal.SIGINT))
+    st['float rounding'] = (float('0.1') + float('0.2')).hex()  # FPU rounding mode
+    return st
+
+
 def execute(spec, pool, limit, watch=None, shared=False):
     """returns (canonical result, list of notes); notes are tagged ARG / CODE / ALIAS / CACHE-WRITE / REPEAT"""
     from qecsim import app
     code = pool.get(CODES, spec['code'])
+    LAST_CODE[0] = code
     dec = pool.get(DECODERS, spec['dec'])
     em = pool.get(EMS, spec['em'])
     op, p = spec['op'], spec['p']
@@ -345,7 +457,12 @@ def execute(spec, pool, limit, watch=None, shared=False):
         except Exception as ex:  # noqa: deterministic exceptions are results too
             return None, 'EXC:' + type(ex).__name__
 
+    g0 = global_state()
     raw, res = timed()
+    g1 = global_state()
+    for k in sorted(g0):
+        if g0[k] != g1.get(k):
+            notes.append('GLOBAL: the call changed process-global state {}: {} -> {}'.format(k, g0[k], g1.get(k)))
     for k, v in args.items():
         if digest(v) != before[k]:
             notes.append('ARG: argument array {} modified by the call'.format(k))
@@ -387,6 +504,36 @@ def execute(spec, pool, limit, watch=None, shared=False):
     return res, notes
 
 
+LAST_CODE = [None]
+
+
+def in_child(fn):
+    """run fn() in a forked child (the parent's state is what a fresh interpreter has after importing qecsim)"""
+    import os
+    import traceback
+    r, w = os.pipe()
+    pid = os.fork()
+    if pid == 0:
+        rc = 1
+        try:
+            os.close(r)
+            data = json.dumps(fn())
+            with os.fdopen(w, 'w') as f:
+                f.write(data)
+            rc = 0
+        except BaseException:  # noqa
+            traceback.print_exc()
+        finally:
+            os._exit(rc)
+    os.close(w)
+    with os.fdopen(r) as f:
+        data = f.read()
+    _, status = os.waitpid(pid, 0)
+    if status != 0 or not data:
+        raise RuntimeError('forked worker failed (status {})'.format(status))
+    return json.loads(data)
+
+
 def main():
     import logging
     import warnings
@@ -395,22 +542,37 @@ def main():
     job = json.load(sys.stdin)
     shared = job['mode'] == 'shared'
     histories = job['histories'] if 'histories' in job else [job['calls']]
+    fork = job.get('fork', True)
+    _scan_caches()  # import every qecsim module before forking (the parent never calls into qecsim)
+    import mpmath  # noqa: F401
     out = []
-    for hist in histories:
+
+    def one(spec, pool):
+        if not shared:
+            clear_all_caches()
+        res, notes = execute(spec, pool, job.get('limit', 60), watch=pool.codes() if shared else None, shared=shared)
+        # the matrices the code object of this call publishes AFTER the call are part of the result: on shared objects
+        # they must be the ones a fresh process computes
+        if res != 'TIMEOUT':
+            try:
+                res += ' code=' + code_digest(pool.get(CODES, spec['code']) if shared else LAST_CODE[0])
+            except Exception as ex:  # noqa
+                res += ' code=EXC:' + type(ex).__name__
+        return {'res': res, 'notes': notes}
+
+    def history(hist):
         if shared:
             clear_all_caches()
         pool = Pool(shared)
-        res_h = []
-        for spec in hist:
-            if not shared:
-                clear_all_caches()
-            res, notes = execute(spec, pool, job.get('limit', 60), watch=pool.codes() if shared else None, shared=shared)
-            cd = None
-            if not shared:
-                clear_all_caches()
-                cd = code_digest(Pool(False).get(CODES, spec['code']))
-            res_h.append({'res': res, 'notes': notes, 'code_digest': cd})
-        out.append(res_h)
+        return [one(spec, pool) for spec in hist]
+
+    for hist in histories:
+        if not fork:
+            out.append(history(hist))
+        elif shared:
+            out.append(in_child(lambda: history(hist)))
+        else:
+            out.append([in_child(lambda: one(spec, Pool(False))) for spec in hist])
     body = {'hashseed': __import__('os').environ.get('PYTHONHASHSEED')}
     if 'histories' in job:
         body['histories'] = out
